@@ -562,8 +562,17 @@ class BaseProject(object, metaclass=ABCMeta):
             if task.target_component is not None:
                 # 3-1. Set target component of workplace if target component is ready
                 component = task.target_component
-                if component.is_ready() and not any(
-                    component is c for c in placed_component_list_in_this_step
+                if (
+                    component.is_ready()
+                    and not any(
+                        component is c for c in placed_component_list_in_this_step
+                    )
+                    # a task of this component which has just been given workers in this
+                    # step will work where the component is now: do not move it away
+                    and not any(
+                        len(t.allocated_worker_list) > 0
+                        for t in component.targeted_task_list
+                    )
                 ):
                     candidate_workplace_list = task.allocated_workplace_list
                     candidate_workplace_list = sort_workplace_list(
